@@ -12,7 +12,7 @@ import ast
 from ..cfg import cfg_of
 from ..flow import flow_of, path_of
 from ..loader import FUNC, AnalysisError, dotted, last_name, loc, short, walk_local, enclosing_stmt
-from ..util import (AMS, ASE, CP2K, ENGBASE, GROMACS, LAMMPS, TURTLE, class_of,
+from ..util import (AMS, ASE, CP2K, ENGBASE, ENGPARTS, GROMACS, LAMMPS, TURTLE, class_of,
                     is_self_attr, kwarg, last_key, loops_of)
 from ..variants import B, K
 
@@ -806,6 +806,7 @@ def run(ctx):
     ctx.rule("R-12.5", "in-process integrators: first frame appended before the first integrator step", floor=1)
     ctx.rule("R-12.6", "velocity direction applied exactly once (no reverse-conditional negation before calculate_order)", floor=5)
     ctx.rule("R-12.7", "every sleeping wait loop observes the external process", floor=6)
+    ctx.rule("R-12.8", "frames handed to the engines by the on-the-fly readers do not share arrays (a frame's box and coordinates are its own)", floor=3)
     engs = engines(ctx.tree)
     armed = [e for e in engs if e[0].rel in ENGINE_FILES]
     if len(armed) < 5:
@@ -821,8 +822,13 @@ def run(ctx):
         r123(ctx, m, cname, f, info)
         r125(ctx, m, cname, f, info)
         r126(ctx, m, cname, f, info)
-    r124(ctx)
-    r127(ctx)
+    ctx.attempt(r124, ctx)
+    ctx.attempt(r127, ctx)
+    # frames queued by the on-the-fly readers own their arrays (box/coordinates of frame k are frame k's)
+    from .c13 import readers
+    from .shared import handed_out_buffers
+    for rf in readers(ctx.tree):
+        ctx.attempt(handed_out_buffers, ctx, "R-12.8", rf, "each queued frame has its own coordinate/box arrays")
 
 
 VARIANTS = [
@@ -863,6 +869,7 @@ VARIANTS = [
     # ---- R-12.7
     B("c12-lammps-wait-without-poll", LAMMPS, '                sleep(self.sleep)\n                if exe.poll() is not None:\n                    logger.debug("LAMMPS execution stopped")\n                    break\n', "                sleep(self.sleep)\n", "R-12.7", control=True),
     B("c12-gromacs-start-without-poll", GROMACS, '                sleep(self.SLEEP)\n                poll = self.check_poll()\n                if poll is not None:\n                    logger.debug("GROMACS execution stopped")\n                    break\n', "                sleep(self.SLEEP)\n", "R-12.7"),
+    B("c12-lammps-shared-box-buffer", ENGPARTS, "            coordinate_snapshot = np.zeros((N_atoms, 6), dtype=np.float64)\n            box_snapshot = np.zeros((3, 3), dtype=np.float64)\n    return trajectory, box", "            coordinate_snapshot = np.zeros((N_atoms, 6), dtype=np.float64)\n    return trajectory, box", "R-12.8", control=True, why="seeded C12_a"),
     # ---- preserving
     K("c12-keep-turtle-plain-increment", TURTLE, "                    break\n                step_nr += 1", "                    break\n                step_nr = step_nr + 1"),
     K("c12-keep-lammps-index-interfaces", LAMMPS, "        left, _, right = interfaces\n        initial_conf", "        left, right = interfaces[0], interfaces[2]\n        initial_conf"),
